@@ -20,7 +20,7 @@ Definition before (x y : item) (l : list item) : Prop :=
 (* ---------- executable checks on observed arrival sequences ---------- *)
 
 Definition kind_eqb (a b : kind) : bool :=
-  match a, b with KPush, KPush | KResp, KResp | KErr, KErr => true | _, _ => false end.
+  match a, b with KPush, KPush | KResp, KResp | KErr, KErr | KEmpty, KEmpty => true | _, _ => false end.
 
 Definition item_eqb (a b : item) : bool :=
   Z.eqb (it_iss a) (it_iss b) && Z.eqb (it_conn a) (it_conn b) && kind_eqb (it_kind a) (it_kind b)
@@ -52,6 +52,9 @@ Definition proj3 (i c t : Z) (l : list item) : list item :=
    arrival order = issue order iff the counters increase). *)
 Definition accepts (ops : list op) (obs : list (Z * list ev)) : bool :=
   let issued := issue_from [] ops in
+  (* pushes without content cannot be attributed at the client: they are matched by number only
+     (the length test below), the attributable items request by request *)
+  let known := filter (fun x => negb (kind_eqb (it_kind x) KEmpty)) issued in
   let tags := tags_of ops in
   list_eqb Z.eqb (map fst obs) (map fst (conns_of ops))
   && forallb (fun ce =>
@@ -59,7 +62,7 @@ Definition accepts (ops : list op) (obs : list (Z * list ev)) : bool :=
        let arr := arrivals c (snd ce) in
        Nat.eqb (length arr) (length (filter (fun x => Z.eqb (it_conn x) c) issued))
        && forallb (fun i => forallb (fun t =>
-            list_eqb item_eqb (proj3 i c t arr) (proj3 i c t issued)) tags) issuers) obs.
+            list_eqb item_eqb (proj3 i c t arr) (proj3 i c t known)) tags) issuers) obs.
 
 (* the order property alone, read off the issue counters the items carry: per connection and
    issuer the counters never decrease on arrival (pushes never overtake each other, a push
